@@ -204,6 +204,15 @@ func controllerAttack(rep int) *hx.Record { //nolint:funlen,gocyclo
 	try(0, "foreign", toks[1])
 	try(0, "never-issued", never)
 
+	for k, sp := range spellings {
+		if (k+rep)%4 != 0 {
+			continue
+		}
+
+		try(0, "variant-of-own-live", spell(toks[0], sp))
+		try(1, "variant-of-foreign-live", spell(toks[0], sp))
+	}
+
 	if _, e := call(closeW, &cmdvcwallet.LockWalletRequest{UserID: users[0]}); e != nil {
 		return trivial("close: " + e.Error())
 	}
